@@ -139,17 +139,17 @@ func scenarios(cfg out.Config, r *rng.R, raceMode bool) []scenario {
 	for i, s1 := range shapes {
 		for j, s2 := range shapes {
 			for _, cc := range ccs {
-				if raceMode && !cfg.Thorough() && ((cc == 2 && (i+j)%3 != 0) || (cc == 1 && (i+2*j)%3 != 0)) {
+				if raceMode && !cfg.Thorough() && ((cc == 2 && (i+j)%4 != 0) || (cc == 1 && (i+2*j)%3 != 0)) {
 					continue
 				}
 				if s1.b.gql != nil && s2.b.gql != nil && !s1.b.gql.get {
 					add("pair", "GET", cc, reqCL, s1.name, s2.name)
 				}
 				add("pair", "GET", cc, reqA, s1.name, s2.name)
-				if (i*7+j*3+cc)%4 == 0 || cfg.Thorough() {
+				if (i*7+j*3+cc)%6 == 0 || cfg.Thorough() {
 					add("pair", "GET", cc, reqB, s1.name, s2.name) // a GET client request that carries a body
 				}
-				if (i+j+cc)%2 == 0 || cfg.Thorough() {
+				if (i+j+cc)%3 == 0 || cfg.Thorough() {
 					add("pair", "POST", cc, reqB, s1.name, s2.name)
 				}
 			}
